@@ -74,7 +74,10 @@ CLAIM = {
             '_solve_finalize stream reduction, the MaxSINR update formulas (only the generic clauses), the \'fix\' '
             'initialisation mode, GreedStream/BruteForce wrappers, the channel class itself (C08).  max-SINR / MMSE are '
             'exercised with a positive noise variance (their covariances are singular without noise when there are few '
-            'interferers).',
+            'interferers).  Closed form (directly, use_best_init True/False, and as the closed_form initialisation of every '
+            'iterative solver): exercised for N = 2..8 and EVERY Ns in 1..N/2 (its domain: 3 users, one antenna count, N - Ns >= '
+            'Ns; the code needs square channels; above N/2 perfect nulling is impossible), with the stream-shape clause '
+            '(W_H / full_W_H rows = Ns, F columns = Ns) and the nulling of all six cross links checked there.',
 }
 
 SOLVERS = ['closed', 'altmin', 'minleak', 'maxsinr', 'mmse']
@@ -603,6 +606,8 @@ class Hist:
                 self.tokens.append('setprec;%s;%s;%s' % (enc_arr(F), enc_arr(fF),
                                                        '-' if P is None else ','.join(core.f2s(x) for x in P)))
                 mty, cty, pty = d.get('mty'), d.get('cty'), d.get('pty')
+                if mty in R1_MAT and mty not in mat_types((F or []) + (fF or [])):
+                    mty = 'fortran'       # the values are not exact in that element type: only the layout varies
                 Fa = None if F is None else vary_container([vary_mat(m, mty) for m in F], cty)
                 fa = None if fF is None else vary_container([vary_mat(m, mty) for m in fF], cty)
                 Pa = None if P is None else vary_vec(P, pty)
@@ -620,6 +625,8 @@ class Hist:
                     W = gen_unit(d['seed'], self.Nr, d['ns'])
                 which = d['which']
                 mty, cty = d.get('mty'), d.get('cty')
+                if mty in R1_MAT and mty not in mat_types(W):
+                    mty = 'fortran'
                 wh = [Hm(w) for w in W] if which in ('WH', 'both') else None
                 w = W if which in ('W', 'both') else None
                 self.tokens.append('setfilt;%s;%s' % (enc_arr(wh), enc_arr(w)))
@@ -872,7 +879,18 @@ READS = ['rF', 'rFF', 'rW', 'rWH', 'rFWH', 'rFW', 'rNs', 'rP']
 
 
 def cf_ok(K, Nr, Nt, ns):
-    return K == 3 and len(set(Nr + Nt)) == 1 and Nr[0] % 2 == 0 and ns == [Nr[0] // 2] * 3
+    """domain of the closed-form solution: 3 users, one antenna count N everywhere (the code inverts the cross
+    channels), the same number of streams 1 <= Ns <= N/2 for every user (an Ns-dimensional interference-free
+    subspace must be left at every receiver: N - Ns >= Ns)"""
+    return K == 3 and len(set(Nr + Nt)) == 1 and len(set(ns)) == 1 and 1 <= ns[0] <= Nr[0] // 2
+
+
+def gen_cf_dims(rng):
+    """(N, Ns) for the closed form: N = 2..8, every Ns in 1..N/2 (half of the draws below N/2)"""
+    n = rng.choice([2, 3, 4, 4, 5, 6, 6, 7, 8])
+    top = n // 2
+    ns = top if rng.chance(0.45) else rng.randint(1, top)
+    return n, ns
 
 
 def gen_history(rng, tier, solver=None, length=None):
@@ -883,11 +901,13 @@ def gen_history(rng, tier, solver=None, length=None):
     cf_system = solver not in ('base', 'closed') and rng.chance(0.15)
     if solver == 'closed':
         K = 3 if rng.chance(0.9) else rng.choice([2, 4])
-        n = rng.choice([2, 4])
+        n, cf_ns = gen_cf_dims(rng)
         Nr, Nt = [n] * K, [n] * K
     elif cf_system:
         K = 3
-        n = rng.choice([2, 4, 4])
+        n, cf_ns = gen_cf_dims(rng)
+        if n > 6:
+            n, cf_ns = 6, min(cf_ns, 3)
         Nr, Nt = [n] * K, [n] * K
     else:
         Nr, Nt = gen_dims(rng, K)
@@ -904,7 +924,7 @@ def gen_history(rng, tier, solver=None, length=None):
         case['chan_ty'] = rng.choice(['fortran', 'transposed', 'strided', 'reversed'])
     cur = gen_ns(rng, K, Nr, Nt, None)
     if solver == 'closed' or cf_system:
-        cur = [Nr[0] // 2] * K
+        cur = [cf_ns] * K
     n = length or (rng.randint(4, 14) if tier == 'quick' else rng.randint(4, 30))
     ops = case['ops']
     curP = [1.0] * K          # the power in force (a given full_F must respect it)
@@ -987,9 +1007,9 @@ def gen_history(rng, tier, solver=None, length=None):
             ops.append(['setinit', v])
         elif r < 0.97 and solver != 'base':
             if solver == 'closed':
-                ns = [Nr[0] // 2] * K
+                ns = [cf_ns if rng.chance(0.7) else rng.randint(1, Nr[0] // 2)] * K
             elif cf_system and rng.chance(0.7):
-                ns = [Nr[0] // 2] * K
+                ns = [cf_ns if rng.chance(0.7) else rng.randint(1, Nr[0] // 2)] * K
             else:
                 ns = gen_ns(rng, K, Nr, Nt, cur)
                 if solver == 'minleak' and rng.chance(0.5):
@@ -1103,7 +1123,7 @@ def power_tol(kind):
     return 1e-6 if kind == 'mmse' else 1e-9
 
 
-def check_relations(s, ch, K, exact_power, kind, want_filters=True):
+def check_relations(s, ch, K, exact_power, kind, want_filters=True, strict_shapes=False):
     """first-principles relations on the values returned by the public getters of `s`
     (call on a deep copy: the getters populate caches).  Returns None or (relation, detail)."""
     F = s.F
@@ -1139,6 +1159,9 @@ def check_relations(s, ch, K, exact_power, kind, want_filters=True):
             return 'W-vs-W_H', 'user %d: integer truncation' % k
     conform = all(np.shape(WH[k]) == (np.shape(F[k])[1], ch.Nr[k]) for k in range(K))
     if not conform:
+        if strict_shapes:       # filters produced by solve(): one row of W_H per stream
+            k = [np.shape(WH[k]) == (np.shape(F[k])[1], ch.Nr[k]) for k in range(K)].index(False)
+            return 'filter-shape', 'user %d: W_H has shape %s, Ns=%d, Nr=%d' % (k, np.shape(WH[k]), np.shape(F[k])[1], ch.Nr[k])
         return None
     WH = [np.asarray(m, dtype=complex) for m in WH]
     conds = [np.linalg.cond(WH[k] @ Hkl(ch, k, k) @ fF[k]) for k in range(K)]
@@ -1179,7 +1202,7 @@ def solve_defined(kind, K, Nr, Nt, ns, init, noise=None):
     if kind in ('maxsinr', 'mmse') and not (noise is not None and noise > 0):
         return False
     if kind == 'closed' or init == 'closed_form':
-        return K == 3 and len(set(Nr + Nt)) == 1 and Nr[0] % 2 == 0 and ns == [Nr[0] // 2] * 3
+        return cf_ok(K, Nr, Nt, ns)
     return True
 
 
@@ -1315,7 +1338,10 @@ def o_history(case):
             ns = ns_list(op[1], K)
             init = op[4] if op[4] is not None else h.mode
             if parg_valid(op[2], K) and solve_defined(h.kind, K, h.Nr, h.Nt, ns, init, case.get('noise')):
-                return ('solve-raises:%s:%s%s' % (h.kind, 'Ns>=2' if max(ns) >= 2 else 'Ns=1', sfx),
+                cf = ''
+                if h.kind == 'closed' or init == 'closed_form':
+                    cf = 'closed-form:Ns<N/2:' if 2 * ns[0] < h.Nr[0] else 'closed-form:Ns=N/2:'
+                return ('solve-raises:%s:%s%s%s' % (h.kind, cf, 'Ns>=2' if max(ns) >= 2 else 'Ns=1', sfx),
                         'op %d: solve raised %s' % (i, out[1]))
             if h.aborted is not None:
                 return None
@@ -1379,7 +1405,7 @@ def o_history(case):
             last_mut = name + '-rejected'
         try:
             c = copy.deepcopy(h.s)
-            r = check_relations(c, h.ch, K, exact, h.kind)
+            r = check_relations(c, h.ch, K, exact, h.kind, strict_shapes=(last_mut == 'solve'))
         except Exception as e:
             if h.s.F is None:
                 continue
@@ -1397,7 +1423,7 @@ def o_history(case):
     if f is not None and not all(mat_close(x, y, 1e-12) for x, y in zip(leaves(getattr(h.s, f)), leaves(getattr(twin.s, f)))):
         return 'differs-from-twin-object:final-state:%s' % f, 'attribute %s differs from the twin object at the end' % f
     if h.kind != 'base' and (h.kind not in ('maxsinr', 'mmse') or (case.get('noise') or 0) > 0):
-        ns = [h.Nr[0] // 2] * K if h.kind == 'closed' else [1] * K
+        ns = [max(1, (h.Nr[0] // 2) - (case['chan_seed'] % 2))] * K if h.kind == 'closed' else [1] * K
         if h.kind != 'closed' or cf_ok(K, h.Nr, h.Nt, ns):
             init = None if h.kind == 'closed' else 'svd'
             fin = ['solve', ns, ('s', 2.0), 4242, init]
@@ -1527,6 +1553,10 @@ def o_solve(case):
     seed_solver(s, case['seed'])
     tags = sorted(t for t in (ns_tag(case.get('ns_arg')), parg_tag(case['P'])) if t)
     cls_sfx = ('Ns>=2' if max(ns) >= 2 else 'Ns=1') + (('[' + ','.join(tags) + ']') if tags else '')
+    if kind == 'closed' or case.get('init') == 'closed_form':
+        # the closed form (directly or as the initialisation): below N/2 streams the interference-free subspace is
+        # larger than the filter
+        cls_sfx = ('closed-form:Ns<N/2:' if 2 * ns[0] < Nr[0] else 'closed-form:Ns=N/2:') + cls_sfx
     if case.get('ns_arg') is not None:
         nsarg = ns_py(case['ns_arg'])
     else:
@@ -1551,15 +1581,17 @@ def o_solve(case):
     if [float(x) for x in np.asarray(s.P).reshape(-1)] != pv:
         return 'power-not-stored:%s' % kind, 'P=%r, expected %r' % (list(s.P), pv)
     try:
-        r = check_relations(copy.deepcopy(s), ch, K, kind != 'mmse', kind)
+        r = check_relations(copy.deepcopy(s), ch, K, kind != 'mmse', kind, strict_shapes=True)
     except Exception as e:
         r = ('getter-raises', '%s: %s' % (type(e).__name__, str(e)[:100]))
     if r is not None:
         return '%s:%s:%s' % (r[0], kind, cls_sfx), r[1]
     W = s.W
     for k in range(K):
-        if W[k].shape != (Nr[k], after[k]) or s.F[k].shape != (Nt[k], after[k]):
-            return 'filter-shape:%s' % kind, 'user %d: W %s F %s Ns %d' % (k, W[k].shape, s.F[k].shape, after[k])
+        if W[k].shape != (Nr[k], after[k]) or s.F[k].shape != (Nt[k], after[k]) \
+                or s.W_H[k].shape != (after[k], Nr[k]) or s.full_W_H[k].shape != (after[k], Nr[k]):
+            return 'filter-shape:%s:%s' % (kind, cls_sfx), 'user %d: W %s W_H %s full_W_H %s F %s Ns %d' % (
+                k, W[k].shape, s.W_H[k].shape, s.full_W_H[k].shape, s.F[k].shape, after[k])
     if kind == 'closed':
         kap = max(float(np.linalg.cond(Hkl(ch, k, l))) for k in range(K) for l in range(K) if k != l) ** 2
         for k in range(K):
@@ -1668,6 +1700,8 @@ def run_oracle(ctx, call, case, key=None):
     ctx.count((call, key if key is not None else repr(case)))
     for c in case_classes(case):
         ctx.branch('oracle:' + c)
+    if call in ('solve', 'monotone') and (case['solver'] == 'closed' or case.get('init') == 'closed_form'):
+        ctx.branch('oracle:closed-form:Ns<N/2' if 2 * case['Ns'][0] < case['Nr'][0] else 'oracle:closed-form:Ns=N/2')
     if call == 'history':
         ctx.branch('oracle:R3')
         ctx.branch('oracle:R7')
@@ -1693,13 +1727,13 @@ def replay(ctx, rep):
 def gen_solve_case(rng, kind=None):
     kind = kind or rng.choice(SOLVERS)
     if kind == 'closed':
-        n = rng.choice([2, 4, 4, 6])
-        K, Nr, Nt, ns = 3, [n] * 3, [n] * 3, [n // 2] * 3
+        n, c = gen_cf_dims(rng)
+        K, Nr, Nt, ns = 3, [n] * 3, [n] * 3, [c] * 3
         init = None
-    elif rng.chance(0.2):
-        # stratum: the 3-user square system on which the closed form exists, every init mode
-        n = rng.choice([2, 4, 4, 6])
-        K, Nr, Nt, ns = 3, [n] * 3, [n] * 3, [n // 2] * 3
+    elif rng.chance(0.25):
+        # stratum: the 3-user square system on which the closed form exists (every Ns in 1..N/2), every init mode
+        n, c = gen_cf_dims(rng)
+        K, Nr, Nt, ns = 3, [n] * 3, [n] * 3, [c] * 3
         init = rng.choice(['closed_form', 'closed_form', 'svd', 'random'] + (['alt_min'] if kind != 'altmin' else []))
     else:
         K = rng.choice([2, 3, 3, 4])
@@ -1710,7 +1744,7 @@ def gen_solve_case(rng, kind=None):
         else:
             ns = [rng.randint(1, x) for x in lim]
         opts = ['random', 'random', 'svd']
-        if K == 3 and len(set(Nr + Nt)) == 1 and Nr[0] % 2 == 0 and ns == [Nr[0] // 2] * 3:
+        if cf_ok(K, Nr, Nt, ns):
             opts += ['closed_form', 'closed_form']
         if kind != 'altmin':
             opts.append('alt_min')
@@ -1747,8 +1781,8 @@ def gen_monotone_case(rng, kind=None):
     if kind != 'altmin':
         opts.append('alt_min')
     if rng.chance(0.15):
-        n = rng.choice([2, 4, 4, 6])
-        K, Nr, Nt, ns = 3, [n] * 3, [n] * 3, [n // 2] * 3
+        n, c = gen_cf_dims(rng)
+        K, Nr, Nt, ns = 3, [n] * 3, [n] * 3, [c] * 3
         opts = ['closed_form']
     return {'solver': kind, 'K': K, 'Nr': Nr, 'Nt': Nt, 'Ns': ns,
             'P': rng.choice([0.5, 1.0, 4.0, 30.0]) * (1.0 if rng.chance(0.6) else 10.0 ** rng.randint(-15, 6)),
@@ -1959,12 +1993,13 @@ def correspond_formulas_closed(ctx, n):
     rng = ctx.rng
     # ---- closed form chain
     for it in range(max(3, n // 3)):
-        nn = rng.choice([2, 4, 4, 6])
+        nn, cns = gen_cf_dims(rng)
         seed = rng.below(2 ** 31)
         ch = build_channel(3, [nn] * 3, [nn] * 3, seed)
         c = make_solver('closed', ch)
-        c._Ns = np.array([nn // 2] * 3)
-        case = {'N': nn, 'seed': seed}
+        c._Ns = np.array([cns] * 3)
+        case = {'N': nn, 'Ns': cns, 'seed': seed}
+        ctx.branch('formula:closed:Ns<N/2' if 2 * cns < nn else 'formula:closed:Ns=N/2')
         with Tap() as tap:
             E = c._calc_E()
         sv = tap.calls('solve')
@@ -1972,7 +2007,7 @@ def correspond_formulas_closed(ctx, n):
             c._updateF()
         pv = tap.calls('pinv')
         ev = tap.calls('eig')
-        F0 = ev[0][2][1][:, 0:nn // 2]
+        F0 = ev[0][2][1][:, 0:cns]
         g = Hkl
         rep = drv.ask(['cf %s %s %s %s %s %s %s %s' % (
             enc_dm(sv[0][2]), enc_dm(sv[1][2]), enc_dm(sv[2][2]), enc_dm(pv[0][2]), enc_dm(pv[1][2]),
@@ -1981,7 +2016,7 @@ def correspond_formulas_closed(ctx, n):
         ctx.corr('formula.closed._calc_E/_updateF', case, 'match' if ok else 'differs', 'match', key=('cf', it))
         # kernel contracts the alignment theorem assumes
         scale = max(1.0, float(np.abs(E).max()))
-        lam = ev[0][2][0][0:nn // 2]
+        lam = ev[0][2][0][0:cns]
         res = float(np.abs(E @ F0 - F0 * lam).max()) / scale
         if res > 1e-8 * max(1.0, np.linalg.cond(ev[0][2][1])):
             ctx.tie_broken('tie', 'contract:eig', 'E F0 - F0 L residual %.3e' % res, case)
@@ -1998,7 +2033,10 @@ def correspond_formulas_closed(ctx, n):
             if not ok:
                 break
             rep = drv.ask(['cfw %s %s' % (enc_dm(g(ch, k, l)), enc_dm(c._F[l]))])[0]
-            ok = ok and mat_close(le[i][1][0], dec_dm(rep))
+            # the matrix handed to leig, the number of eigenvectors asked for (Ns: one filter column per stream)
+            # and the shape of the stored filter
+            ok = ok and mat_close(le[i][1][0], dec_dm(rep)) and int(le[i][1][1]) == cns \
+                and np.shape(c._W[k]) == (nn, cns)
             V = le[i][2][0]
             r = float(np.abs(le[i][1][0] @ V).max()) / max(1.0, float(np.abs(le[i][1][0]).max()))
             if r > 1e-8:
@@ -2065,7 +2103,8 @@ def check(ctx):
     ctx.required_branches = ['op:setP', 'op:rand', 'op:setprec', 'op:setfilt', 'op:solve', 'op:clear', 'op:rFWH',
                              'op:rFW', 'op:rFF', 'op:setinit', 'out:err:ValueError', 'out:err:RuntimeError',
                              'out:err:TypeError'] + ['corr:R%d' % i for i in range(1, 8)] + [
-                             'oracle:R%d' % i for i in range(1, 8)] + ['formula:scale',
+                             'oracle:R%d' % i for i in range(1, 8)] + ['formula:scale', 'formula:closed:Ns<N/2',
+                             'formula:closed:Ns=N/2', 'oracle:closed-form:Ns<N/2', 'oracle:closed-form:Ns=N/2',
                              'formula:system', 'formula:closed', 'formula:store', 'oracle-ok:solve',
                              'oracle-ok:monotone', 'oracle-ok:history']
     nh = 300 if quick else 5000
